@@ -63,9 +63,11 @@ theorem untrusted_noninterference (N : Net Addr Prefix) (cfg : Cfg Prefix) (c : 
   unfold untrustedOut
   simp [h1, h2, h3]
 
-/- FULL statement, without the `omit` hypotheses:
+/- Stronger than C10 (ALL headers, `Connection` included, and a third-party handler's nil convention):
      ∀ N cfg c w w', peerTrusted N cfg c = false → serve N cfg c w = serve N cfg c w'
-   It FAILS on the tree as it is: `untrusted_noninterference_full_fails` (Witness.lean). -/
+   does not hold in the model: `untrusted_noninterference_full_fails` (Witness.lean).  The clause of
+   C10 itself — forwarding headers have no influence — is `untrusted_forwarding_headers_irrelevant`
+   below and holds without exception. -/
 
 /-- the two header lists agree on whether `Connection` names each pre-set-to-nil field -/
 def omitDropsAgree (cfg : Cfg Prefix) (w w' : List (Bytes × Bytes)) : Bool :=
